@@ -669,6 +669,10 @@ def execute(n_ep, opens, ops, rig):
                 a = op[1]
                 msg_count += 1
                 m = "m%d" % msg_count
+                if msg_count % 2 == 0:
+                    # every other message handed to sendData is LONGER than the endpoint's receive-buffer length (which is
+                    # a property of receiving): it is still one message, handed to the endpoint - and put on the wire - once
+                    m = m + "y" * ((getattr(rig, "buflen", None) or 1024) + 9 - len(m))
                 sut(hub.sendData, a, m)
                 want = [("tx", a, m)] if a in eps else []
                 got = [e for e in log if e[0] != "wire"]
